@@ -35,12 +35,12 @@ def build(world):
         if f is not None and q != c09_c.FLUSH_Q and any(isinstance(x, ast.Attribute) and x.attr == "_handle_sleep_buffer" for x in ast.walk(f.node)):
             units.append(Unit(name, q, ct, receiver=cls, case=case))
     # guarantee side of the rely: what an application send may do to the shared buffer (outgoing set handler and Gateway.send)
-    units += [u for u in gu.send_units(world) if "handle_set" in u.name or "Gateway.send[" in u.name]
+    for u in gu.send_units(world):
+        if "handle_set" in u.name or "Gateway.send[" in u.name:
+            if "handle_set" in u.name:
+                u.contract.exit_hook = c09_c.park_hook  # C09/park-is-atomic, from the path itself
+            units.append(u)
     return units
-
-
-def extra_checks(world):
-    return [c09_c.park_is_atomic(world)]
 
 
 def native_race(version="2.2", race_child=1, at_write=0, children=(1,)):
